@@ -13,7 +13,14 @@
    bound per message (msg_small, Model/C10Rt.v): C10_stream_roundtrip (the premise [good] of C10_stream_rt_eq
    discharged), C10_stream_older_reader, C10_truncate_roundtrip.  [norm_obj] (Model/C01Def.v) is the closed form of
    the decoded object, [whole_frames sc ms k] (Model/C10Rt.v) the number of frames wholly within the first k bytes.
-   This file holds only statements; each proof is one [exact] of a lemma from Proofs/C10*P.v. *)
+   The section "GAP CLOSING" at the end (table of the property text against the theorems: top of Proofs/C10GapA.v) adds: the
+   reference reader of one frame / of a stream and the exact equivalence with load (C10_load_ref_frame, C10_load_total_spec,
+   C10_ref_frames_stream), uniqueness (C10_frame_unique, C10_stream_unique), the canonical prefix = len(m) (C10_dump_canonical),
+   the stream position between calls (C10_loads_positions), faults other than a cut (C10_loads_fault, C10_stream_fault_roundtrip),
+   the value hypotheses discharged for public-API histories (C10_stream_roundtrip_reachable, C10_older_reader_reachable),
+   written messages carrying unknown fields at any depth (C10_stream_roundtrip_unknown, with a _refuted witness for its side
+   condition) and the composition with C17's acceptance criterion (C10_load_accept_iff).
+   This file holds only statements; each proof is one [exact] of a lemma from Proofs/C10*P.v / C10Gap*.v. *)
 From BP Require Import Base.Prelude Model.Types Model.Varint Model.Object Model.Eq Model.Encode Model.Len Model.Decode.
 From BP Require Import Model.C10Stream Spec.Varint.
 From BP Require Import Proofs.C10FrameP Proofs.C10StreamP Proofs.C10TotalP.
@@ -508,3 +515,340 @@ Example C10_ex_truncate :
   map (fun k => fst (loads rt_old (map ocls rt_ms) (firstn k rt_stream))) (seq 0 41) =
   map (fun k => firstn (whole_frames rt_sc rt_ms k) rt_mos) (seq 0 41).
 Proof. vm_compute. repeat split; reflexivity. Qed.
+
+(* =============================================================================================
+   GAP CLOSING (Proofs/C10GapA.v — clause-by-clause table of the property text against the theorems above —,
+   Proofs/C10GapB.v; new definitions in Model/C10GapDefs.v).  Nothing above is changed.
+   ============================================================================================= *)
+From BP Require Import Model.C10GapDefs Proofs.C10GapA Proofs.C10GapB.
+From BP Require Model.C07Ops Model.History Model.C01Reach Model.C01Parse Model.C14Pickle Model.C14UDef.
+From BP Require Model.C17Typed Model.C17Nested.
+
+(* ---- "the framing is the varint length prefix the reference implementation reads and writes" ----
+   [ref_frame] (Model/C10GapDefs.v) is the reference reader of one frame: one varint n of at most ten bytes, then exactly
+   n bytes; it knows no schema.  A delimited load returns (m, s') EXACTLY when the reference reader splits the stream
+   into (payload, s') and parse(payload) returns m: any stream, any schema, any class, both directions. *)
+Theorem C10_load_ref_frame : forall sc c s m s',
+  load_delimited sc c s = Ok (m, s') <-> exists p, ref_frame s = Ok (p, s') /\ parse sc c p = Ok m.
+Proof. exact load_ref_frame. Qed.
+Print Assumptions C10_load_ref_frame.
+
+(* the same without the reference reader: C10_frame_ok and C10_frame_exact as one equivalence *)
+Theorem C10_load_iff : forall sc c s m s',
+  load_delimited sc c s = Ok (m, s') <->
+  exists pre p, s = pre ++ p ++ s' /\ VarintRep (Zlength p) pre /\ parse sc c p = Ok m.
+Proof. exact load_iff. Qed.
+Print Assumptions C10_load_iff.
+
+(* every outcome of one load on ANY stream, decided by the length varint, the number of bytes behind it and parse on
+   exactly the announced bytes: a bad / cut prefix raises the varint's own exception; fewer bytes than announced raise;
+   otherwise the load returns what parse returns on the n bytes and leaves the rest, or raises when parse does *)
+Theorem C10_load_total_spec : forall sc c s,
+  (forall e, load_varint s = Err e -> load_delimited sc c s = Err e) /\
+  (forall n pre r, load_varint s = Ok (n, pre, r) -> Zlength r < n -> exists e, load_delimited sc c s = Err e) /\
+  (forall n pre r, load_varint s = Ok (n, pre, r) -> n <= Zlength r ->
+     0 <= n /\
+     match parse sc c (firstn (Z.to_nat n) r) with
+     | Ok m => load_delimited sc c s = Ok (m, skipn (Z.to_nat n) r)
+     | Err _ => exists e, load_delimited sc c s = Err e
+     end).
+Proof. exact load_total_spec. Qed.
+Print Assumptions C10_load_total_spec.
+
+(* a byte string has at most one reading as (length prefix ++ payload ++ rest), padded prefixes included *)
+Theorem C10_frame_unique : forall pre p r pre' p' r',
+  VarintRep (Zlength p) pre -> VarintRep (Zlength p') pre' ->
+  pre ++ p ++ r = pre' ++ p' ++ r' -> pre = pre' /\ p = p' /\ r = r'.
+Proof. exact frame_unique. Qed.
+Print Assumptions C10_frame_unique.
+
+(* what dump writes: the CANONICAL (shortest) varint of len(m) (C09's __len__), then bytes(m); the reference reader takes
+   exactly bytes(m) off the front whatever follows *)
+Theorem C10_dump_canonical : forall sc m F,
+  dump sc m true = Ok F -> Zlength F < 2 ^ 64 ->
+  exists pre p, F = pre ++ p /\ enc_obj sc m = Ok p /\ len_obj sc m = Ok (Zlength p) /\
+                canonical (Zlength p) pre /\ VarintRep (Zlength p) pre /\
+                forall rest, ref_frame (F ++ rest) = Ok (p, rest).
+Proof. exact dump_canonical. Qed.
+Print Assumptions C10_dump_canonical.
+
+(* the frame is a function of the payload and determines it (any two schemas / messages) *)
+Theorem C10_frame_of_payload : forall sc sc' m m' F F',
+  dump sc m true = Ok F -> dump sc' m' true = Ok F' -> Zlength F < 2 ^ 64 -> Zlength F' < 2 ^ 64 ->
+  (F = F' <-> enc_obj sc m = enc_obj sc' m').
+Proof. exact frame_of_payload. Qed.
+Print Assumptions C10_frame_of_payload.
+
+(* the reference reader run over a written stream returns exactly the payloads bytes(m_i), in order, nothing left *)
+Theorem C10_ref_frames_stream : forall sc ms stream,
+  Forall (fun m => msg_small sc m = true) ms -> dump_stream sc ms = Ok stream ->
+  exists ps, Forall2 (fun m p => enc_obj sc m = Ok p) ms ps /\ ref_frames (S (length stream)) stream = Ok ps.
+Proof. exact ref_frames_stream. Qed.
+Print Assumptions C10_ref_frames_stream.
+
+(* "the same sequence": a stream determines the number of messages written and the bytes of each *)
+Theorem C10_stream_unique : forall sc sc' ms ms' stream,
+  Forall (fun m => msg_small sc m = true) ms -> Forall (fun m => msg_small sc' m = true) ms' ->
+  dump_stream sc ms = Ok stream -> dump_stream sc' ms' = Ok stream ->
+  Forall2 (fun m m' => enc_obj sc m = enc_obj sc' m') ms ms'.
+Proof. exact stream_unique. Qed.
+Print Assumptions C10_stream_unique.
+
+(* which streams a load ACCEPTS: composition with C17's acceptance criterion (valid: Model/C17Nested.v) *)
+Theorem C10_load_accept_iff : forall sc,
+  wf_schema sc = true -> C17Typed.has_builtins sc -> C17Typed.entries_agree sc = true ->
+  forall c s, (exists m s', load_delimited sc c s = Ok (m, s')) <->
+              (exists p s', ref_frame s = Ok (p, s') /\ C17Nested.valid sc c p).
+Proof. exact load_accept_iff. Qed.
+Print Assumptions C10_load_accept_iff.
+
+(* ---- "including empty messages": exactness ---- *)
+Theorem C10_empty_frame_iff : forall sc m, dump sc m true = Ok [x00] <-> enc_obj sc m = Ok [].
+Proof. exact empty_frame_iff. Qed.
+Print Assumptions C10_empty_frame_iff.
+
+Theorem C10_empty_first_byte : forall sc m F rest,
+  dump sc m true = Ok (x00 :: F) -> Zlength (x00 :: F) < 2 ^ 64 ->
+  F = [] /\ enc_obj sc m = Ok [] /\ forall c, load_delimited sc c (x00 :: F ++ rest) = Ok (sow_true (new sc c), rest).
+Proof. exact empty_first_byte. Qed.
+Print Assumptions C10_empty_first_byte.
+
+(* ---- "each call consuming exactly its own message": the stream position BETWEEN the calls ----
+   after the first j loads exactly the frames of the remaining messages (and what followed the stream) are unread, and the
+   remaining loads read exactly those *)
+Theorem C10_loads_positions : forall scW scR ms cs stream rest l j,
+  Forall (fun m => msg_small scW m = true) ms ->
+  dump_stream scW ms = Ok stream -> length cs = length ms ->
+  parse_each scW scR cs ms = (l, true) ->
+  exists done todo,
+    dump_stream scW (firstn j ms) = Ok done /\ dump_stream scW (skipn j ms) = Ok todo /\ stream = done ++ todo /\
+    loads scR (firstn j cs) (stream ++ rest) = (firstn j l, Ok (todo ++ rest)) /\
+    loads scR (skipn j cs) (todo ++ rest) = (skipn j l, Ok rest).
+Proof. exact loads_positions. Qed.
+Print Assumptions C10_loads_positions.
+
+(* ---- faults other than a cut ("fault_sequences"): two streams that agree on their first k bytes — one of them cut,
+   overwritten or followed by garbage from byte k on — return the same messages for every frame read inside the k bytes ---- *)
+Theorem C10_loads_fault : forall sc cs k s1 s2,
+  agree_upto k s1 s2 ->
+  let l := fst (loads sc cs (firstn k s1)) in
+  firstn (length l) (fst (loads sc cs s1)) = l /\ firstn (length l) (fst (loads sc cs s2)) = l.
+Proof. exact loads_fault. Qed.
+Print Assumptions C10_loads_fault.
+
+Theorem C10_stream_fault_any_reader : forall scW scR ms cs stream k l s2,
+  Forall (fun m => msg_small scW m = true) ms ->
+  dump_stream scW ms = Ok stream -> length cs = length ms ->
+  parse_each scW scR cs ms = (l, true) -> agree_upto k stream s2 ->
+  exists more, fst (loads scR cs s2) = firstn (whole_frames scW ms k) l ++ more.
+Proof. exact stream_fault_any_reader. Qed.
+Print Assumptions C10_stream_fault_any_reader.
+
+(* a written stream damaged in ANY way from byte k on: the messages whose frames lie wholly before k come back first, each
+   the decoded form of the written one ([same_message]: ==, same bytes, ...) *)
+Theorem C10_stream_fault_roundtrip : forall sc ms stream k s2,
+  C01Def.c01_schema_ok sc = true ->
+  Forall (fun m => C01Def.c01_value_ok sc m = true) ms -> Forall (fun m => msg_small sc m = true) ms ->
+  dump_stream sc ms = Ok stream -> agree_upto k stream s2 ->
+  exists more, fst (loads sc (map ocls ms) s2) = map (C01Def.norm_obj sc) (firstn (whole_frames sc ms k) ms) ++ more /\
+               Forall (fun m => same_message sc m (C01Def.norm_obj sc m)) (firstn (whole_frames sc ms k) ms).
+Proof. exact stream_fault_roundtrip. Qed.
+Print Assumptions C10_stream_fault_roundtrip.
+
+(* "never a silently shortened message", as bytes: whatever a cut run returns re-encodes to the bytes / frame written *)
+Theorem C10_returned_same_bytes : forall sc ms stream k,
+  C01Def.c01_schema_ok sc = true ->
+  Forall (fun m => C01Def.c01_value_ok sc m = true) ms -> Forall (fun m => msg_small sc m = true) ms ->
+  dump_stream sc ms = Ok stream ->
+  exists j, (j <= length ms)%nat /\
+    Forall2 (fun m m' => enc_obj sc m' = enc_obj sc m /\ dump sc m' true = dump sc m true)
+            (firstn j ms) (fst (loads sc (map ocls ms) (firstn k stream))).
+Proof. exact returned_same_bytes. Qed.
+Print Assumptions C10_returned_same_bytes.
+
+Theorem C10_whole_frames_mono : forall sc ms k k', (k <= k')%nat -> (whole_frames sc ms k <= whole_frames sc ms k')%nat.
+Proof. exact whole_frames_mono. Qed.
+Print Assumptions C10_whole_frames_mono.
+
+Theorem C10_whole_frames_le : forall sc ms k, (whole_frames sc ms k <= length ms)%nat.
+Proof. exact whole_frames_le. Qed.
+Print Assumptions C10_whole_frames_le.
+
+(* ---- the value hypotheses discharged for what the public API produces (C01's reachability theorems) ----
+   [reached sc (c, ops) m]: m is what the history ops produces from a fresh instance of class c, and the history meets the
+   decidable operation-level conditions of C01 (hist_ok op_reach_ok_p).  For ANY sequence of such objects: the round trip,
+   the attribute observers (obs_top), the same stream again, and the truncation statement at every cut point. *)
+Theorem C10_stream_roundtrip_reachable : forall sc hs ms rest,
+  C01Def.c01_schema_ok sc = true -> Forall2 (reached sc) hs ms -> Forall (fun m => msg_small sc m = true) ms ->
+  exists stream,
+    dump_stream sc ms = Ok stream /\
+    loads sc (map ocls ms) (stream ++ rest) = (map (C01Def.norm_obj sc) ms, Ok rest) /\
+    Forall (fun m => same_message sc m (C01Def.norm_obj sc m) /\ C01Def.obs_top sc m (C01Def.norm_obj sc m) = true) ms /\
+    dump_stream sc (map (C01Def.norm_obj sc) ms) = Ok stream /\
+    forall k, exists r,
+      loads sc (map ocls ms) (firstn k stream) = (map (C01Def.norm_obj sc) (firstn (whole_frames sc ms k) ms), r) /\
+      cut_end stream k (whole_frames sc ms k) (length ms) r.
+Proof. exact stream_roundtrip_reachable. Qed.
+Print Assumptions C10_stream_roundtrip_reachable.
+
+Theorem C10_older_reader_reachable : forall sn masks hs ms rest,
+  C01Def.c01_schema_ok sn = true -> C08EvoDef.masks_ok sn masks = true ->
+  Forall2 (reached sn) hs ms -> Forall (fun m => msg_small sn m = true) ms ->
+  exists stream mos stream2,
+    dump_stream sn ms = Ok stream /\
+    Forall2 (older_view sn masks) ms mos /\
+    loads (C08Step.drop_fields masks sn) (map ocls ms) (stream ++ rest) = (mos, Ok rest) /\
+    dump_stream (C08Step.drop_fields masks sn) mos = Ok stream2 /\ length stream2 = length stream /\
+    (forall rest', loads sn (map ocls ms) (stream2 ++ rest') = (map (C01Def.norm_obj sn) ms, Ok rest')) /\
+    forall k, exists r,
+      loads (C08Step.drop_fields masks sn) (map ocls ms) (firstn k stream) = (firstn (whole_frames sn ms k) mos, r) /\
+      cut_end stream k (whole_frames sn ms k) (length ms) r.
+Proof. exact older_reader_reachable. Qed.
+Print Assumptions C10_older_reader_reachable.
+
+(* ---- "messages with unknown fields", end to end: the WRITTEN messages carry _unknown_fields, at any nesting depth ----
+   c14u_value_ok (Model/C14UDef.v) is c01_value_ok with "no unknown bytes" replaced, at every depth, by "the unknown bytes are
+   complete records the class keeps verbatim" (what Message.parse leaves there); normu_obj is norm_obj keeping them.
+   [unk_view]: same bytes and frame, same _unknown_fields, class, which_one_of, == both ways (NaN-free). *)
+Theorem C10_stream_roundtrip_unknown : forall sc ms rest,
+  C01Def.c01_schema_ok sc = true ->
+  Forall (fun m => C14UDef.c14u_value_ok sc m = true) ms -> Forall (fun m => msg_small sc m = true) ms ->
+  exists stream,
+    dump_stream sc ms = Ok stream /\
+    loads sc (map ocls ms) (stream ++ rest) = (map (C14UDef.normu_obj sc) ms, Ok rest) /\
+    Forall (fun m => unk_view sc m (C14UDef.normu_obj sc m)) ms /\
+    dump_stream sc (map (C14UDef.normu_obj sc) ms) = Ok stream /\
+    forall k, exists r,
+      loads sc (map ocls ms) (firstn k stream) = (map (C14UDef.normu_obj sc) (firstn (whole_frames sc ms k) ms), r) /\
+      cut_end stream k (whole_frames sc ms k) (length ms) r.
+Proof. exact stream_roundtrip_unknown. Qed.
+Print Assumptions C10_stream_roundtrip_unknown.
+
+(* the condition on the unknown bytes is needed (inside the model: parse never leaves such bytes): _unknown_fields holding a
+   record of a DECLARED field are read back into the field — a different message *)
+Theorem C10_stream_unknown_needs_records_refuted :
+  exists sc m stream m',
+    C01Def.c01_schema_ok sc = true /\ C01Def.c01_value_ok sc (C08Step.clear_unk m) = true /\ msg_small sc m = true /\
+    C14Pickle.unk_records_ok sc m = false /\ C14UDef.c14u_value_ok sc m = false /\
+    dump_stream sc [m] = Ok stream /\ loads sc [ocls m] stream = ([m'], Ok []) /\
+    ounk m' = [] /\ obj_eq sc m m' = false /\ obj_eq sc m' m = false /\ enc_obj sc m' <> enc_obj sc m.
+Proof. exact stream_unknown_needs_records_refuted. Qed.
+Print Assumptions C10_stream_unknown_needs_records_refuted.
+
+(* ---------------------------------------------------------------------------------------------
+   non-vacuity of the gap-closing section
+   --------------------------------------------------------------------------------------------- *)
+(* C10_load_ref_frame / _load_iff / _load_total_spec / _frame_unique / _ref_frames_stream / _dump_canonical: the reference
+   reader on the example stream of the first section (an empty frame, a frame with a set-but-empty optional string, a frame
+   with unknown fields incl. a group), a padded prefix, an under-run and a cut prefix *)
+Example C10_ex_ref_frame :
+  ref_frame ex_stream = Ok ([], tl ex_stream) /\
+  ref_frames (S (length ex_stream)) ex_stream =
+    Ok [[]; [x08; x05; x12; x00]; [x08; x01; x9a; x03; x01; xff; x4b; x08; x05; x4c]] /\
+  Forall (fun m => msg_small ex_sc m = true) [mE; mA; mU] /\
+  ref_frame ([x84; x00] ++ [x08; x05; x12; x00] ++ [xff]) = Ok ([x08; x05; x12; x00], [xff]) /\
+  load_varint [x05; x08; x05; x12; x00] = Ok (5, [x05], [x08; x05; x12; x00]) /\ ref_frame [x05; x08; x05; x12; x00] = Err EEof /\
+  load_varint [x84] = Err EEof /\ load_delimited ex_sc 11 [x84] = Err EEof /\
+  load_varint [x03; x12; x01; xff; x00] = Ok (3, [x03], [x12; x01; xff; x00]) /\
+  (exists pre p, dump ex_sc mA true = Ok (pre ++ p) /\ pre = [x04] /\ canonical (Zlength p) pre /\ len_obj ex_sc mA = Ok 4).
+Proof.
+  split; [vm_compute; reflexivity|]. split; [vm_compute; reflexivity|]. split; [repeat constructor|].
+  split; [vm_compute; reflexivity|]. split; [vm_compute; reflexivity|]. split; [vm_compute; reflexivity|].
+  split; [vm_compute; reflexivity|]. split; [vm_compute; reflexivity|]. split; [vm_compute; reflexivity|].
+  exists [x04], [x08; x05; x12; x00]. split; [vm_compute; reflexivity|]. split; [reflexivity|].
+  split; [|vm_compute; reflexivity]. split; [cbn; lia|]. split; [reflexivity | left; reflexivity].
+Qed.
+
+(* C10_stream_unique / C10_frame_of_payload: two different objects (flag down / flag up) with the same bytes give the same stream *)
+Example C10_ex_unique :
+  dump_stream ex_sc [mE; mA] = dump_stream ex_sc [Obj 12 [] true [] []; mA] /\ mE <> Obj 12 [] true [] [] /\
+  dump ex_sc mE true = Ok [x00] /\ enc_obj ex_sc mE = Ok [] /\ dump ex_sc mA true <> dump ex_sc mU true.
+Proof. vm_compute. repeat split; try reflexivity; discriminate. Qed.
+
+(* C10_load_accept_iff: its schema hypotheses hold of the round-trip schema *)
+Example C10_ex_accept : wf_schema rt_sc = true /\ C17Typed.has_builtins rt_sc /\ C17Typed.entries_agree rt_sc = true.
+Proof. split; [vm_compute; reflexivity|]. split; [eexists; reflexivity | vm_compute; reflexivity]. Qed.
+
+(* C10_loads_positions on the round-trip stream: after one load the frames of the two remaining messages are unread *)
+Example C10_ex_positions :
+  loads rt_sc (firstn 1 (map ocls rt_ms)) (rt_stream ++ [xff]) =
+    (firstn 1 (map (C01Def.norm_obj rt_sc) rt_ms), Ok (skipn 31 rt_stream ++ [xff])) /\
+  dump_stream rt_sc (skipn 1 rt_ms) = Ok (skipn 31 rt_stream).
+Proof. vm_compute. split; reflexivity. Qed.
+
+(* C10_loads_fault / C10_stream_fault_*: the round-trip stream with everything from byte 33 on overwritten (the third frame's
+   payload becomes an unterminated varint): the first two messages come back unchanged, the third load raises *)
+Definition rt_damaged : list byte := firstn 33 rt_stream ++ [xff; xff; xff; xff; xff; xff].
+Example C10_ex_fault :
+  agree_upto 33 rt_stream rt_damaged /\ rt_damaged <> rt_stream /\ length rt_damaged = length rt_stream /\
+  whole_frames rt_sc rt_ms 33 = 2%nat /\
+  loads rt_sc (map ocls rt_ms) rt_damaged = (map (C01Def.norm_obj rt_sc) (firstn 2 rt_ms), Err EEof).
+Proof. vm_compute. repeat split; try reflexivity. discriminate. Qed.
+
+(* C10_stream_roundtrip_reachable / C10_older_reader_reachable: three histories over the two classes — constructor + setattr of a
+   oneof member + a lazy read; the EMPTY history (an untouched instance, frame 00); a parse into a fresh instance followed by
+   an assignment through a lazily created sub-message *)
+Definition g_h1 : nat * list C07Ops.op7 :=
+  (11%nat, [C07Ops.OConstruct [(0%nat, PInt 150)]; C07Ops.OBase (History.OSet [] 4 (PInt (-2))); C07Ops.OBase (History.OGet [] 1)]).
+Definition g_h2 : nat * list C07Ops.op7 := (12%nat, []).
+Definition g_h3 : nat * list C07Ops.op7 :=
+  (11%nat, [C07Ops.OBase (History.OParse [x12; x02; x68; x69]); C07Ops.OBase (History.OSet [2%nat] 0 (PInt (-1)))]).
+Definition g_m1 : obj := Obj 11 [PInt 150; PNone; PPlaceholder; PPlaceholder; PInt (-2); PPlaceholder] true [] [Some 4%nat].
+Definition g_m3 : obj :=
+  Obj 11 [PPlaceholder; PStr [x68; x69];
+          PMsg (Obj 11 [PInt (-1); PNone; PPlaceholder; PPlaceholder; PPlaceholder; PPlaceholder] true [] [None]);
+          PPlaceholder; PPlaceholder; PPlaceholder] true [] [None].
+Example C10_ex_reached :
+  Forall2 (reached rt_sc) [g_h1; g_h2; g_h3] [g_m1; rt_m2; g_m3] /\
+  Forall (fun m => msg_small rt_sc m = true) [g_m1; rt_m2; g_m3] /\
+  C08EvoDef.masks_ok rt_sc rt_masks = true /\
+  dump_stream rt_sc [g_m1; rt_m2; g_m3] =
+    Ok [x05; x08; x96; x01; x28; x03; x00; x11; x12; x02; x68; x69; x1a; x0b; x08; xff; xff; xff; xff; xff; xff; xff; xff; xff; x01].
+Proof.
+  split; [repeat constructor; vm_compute; reflexivity|]. split; [repeat constructor|]. split; vm_compute; reflexivity.
+Qed.
+
+(* C10_stream_roundtrip_unknown: the first message carries unknown bytes at the top level (a group) AND inside its nested
+   message (a padded-tag record); c01_value_ok rejects it, c14u_value_ok accepts it; both sets of unknown bytes come back *)
+Definition g_u1 : obj :=
+  Obj 11 [PInt 150; PNone;
+          PMsg (Obj 11 [PInt (-1); PStr []; PPlaceholder; PPlaceholder; PPlaceholder; PPlaceholder] true [x9a; x03; x01; xff] [None]);
+          PPlaceholder; PInt (-2); PList [PFloat 4609434218613702656]] true [x4b; x08; x05; x4c] [Some 4%nat].
+Example C10_ex_unknown :
+  C01Def.c01_value_ok rt_sc g_u1 = false /\
+  forallb (fun m => C14UDef.c14u_value_ok rt_sc m && msg_small rt_sc m) [g_u1; rt_m2] = true /\
+  (exists stream, dump_stream rt_sc [g_u1; rt_m2] = Ok stream /\ length stream = 40%nat /\
+     loads rt_sc [11; 12]%nat (stream ++ [xff]) = ([g_u1; Obj 12 [] true [] []], Ok [xff]) /\
+     loads rt_sc [11; 12]%nat (firstn 39 stream) = ([g_u1], Err EEof) /\
+     loads rt_sc [11; 12]%nat (firstn 38 stream) = ([], Err EEof)) /\
+  C14UDef.normu_obj rt_sc g_u1 = g_u1.
+Proof.
+  split; [vm_compute; reflexivity|]. split; [vm_compute; reflexivity|]. split; [|vm_compute; reflexivity].
+  eexists. split; [vm_compute; reflexivity|]. vm_compute. repeat split; reflexivity.
+Qed.
+
+(* the two Forall hypotheses of C10_stream_roundtrip_unknown as stated *)
+Example C10_ex_unknown_hyps :
+  Forall (fun m => C14UDef.c14u_value_ok rt_sc m = true) [g_u1; rt_m2] /\ Forall (fun m => msg_small rt_sc m = true) [g_u1; rt_m2].
+Proof. split; repeat constructor. Qed.
+
+(* ---- the end of the stream (Proofs/C10GapC.v): after the last message a further load raises EOFError — it never returns a
+   phantom empty message —, for any reader that parses every payload and any further classes ---- *)
+From BP Require Import Proofs.C10GapC.
+Theorem C10_load_at_end : forall sc c, load_delimited sc c [] = Err EEof.
+Proof. exact load_at_end. Qed.
+Print Assumptions C10_load_at_end.
+
+Theorem C10_loads_past_end : forall scW scR ms cs stream l c cs',
+  Forall (fun m => msg_small scW m = true) ms ->
+  dump_stream scW ms = Ok stream -> length cs = length ms ->
+  parse_each scW scR cs ms = (l, true) ->
+  loads scR (cs ++ c :: cs') stream = (l, Err EEof).
+Proof. exact loads_past_end. Qed.
+Print Assumptions C10_loads_past_end.
+
+Example C10_ex_past_end :
+  loads rt_sc (map ocls rt_ms ++ [12%nat]) rt_stream = (map (C01Def.norm_obj rt_sc) rt_ms, Err EEof) /\
+  loads rt_sc (map ocls rt_ms ++ [12%nat]) (rt_stream ++ [x00]) =
+    (map (C01Def.norm_obj rt_sc) rt_ms ++ [Obj 12 [] true [] []], Ok []).
+Proof. vm_compute. split; reflexivity. Qed.
